@@ -96,6 +96,13 @@ def observe(H, g, post, rng):
         mem = list(H._edge[e])
         lk.append([sorted(iN(x) for x in mem), _try(lambda mem=mem: [iE(x) for x in H.edges.lookup(mem)])])
     o["lookup"] = lk
+    nlk = []
+    for n in nodes[:3]:
+        ms = list(H._node[n])
+        nlk.append([sorted(iE(x) for x in ms), _try(lambda ms=ms: [iN(x) for x in H.nodes.lookup(ms)])])
+    nlk.append([[], _try(lambda: [iN(x) for x in H.nodes.lookup([])])])
+    o["nlookup"] = nlk
+    o["lookup"].append([[], _try(lambda: [iE(x) for x in H.edges.lookup([])])])
     o["dups"] = _try(lambda: [iE(e) for e in H.edges.duplicates()])
     o["iso"] = _try(lambda: [iN(n) for n in H.nodes.isolates()])
     o["isoig"] = _try(lambda: [iN(n) for n in H.nodes.isolates(ignore_singletons=True)])
